@@ -26,8 +26,6 @@
 #include <openssl/core_names.h>
 #include <openssl/param_build.h>
 
-enum { CB_NONE = 0, CB_STRICT, CB_PERMISSIVE, CB_ANON, CB_N };
-static const char *cbname[] = { "no-callback", "strict-callback", "permissive-callback", "allow-anon-callback" };
 typedef struct { const char *name; int ver; uint16_t suite; int leafType; int verifierIsServer; const char *ociph; } scn_t;
 static const scn_t scns[] = {
     { "rsa-kx", MX_TLS12, 0x003c, CG_K_RSA2048, 0, "AES128-SHA256" }, { "ecdhe-rsa", MX_TLS12, 0xc02f, CG_K_RSA2048, 0, "ECDHE-RSA-AES128-GCM-SHA256" },
@@ -38,13 +36,6 @@ static const scn_t scns[] = {
     { "clientauth-rsa", MX_TLS13, 0x1301, CG_K_RSA2048, 1, "TLS_AES_128_GCM_SHA256" }, { "clientauth-ecdsa", MX_TLS13, 0x1301, CG_K_P256, 1, "TLS_AES_128_GCM_SHA256" },
 };
 #define NSCN ((int) (sizeof scns / sizeof scns[0]))
-
-/* callback bookkeeping (single-threaded) */
-static int cb_calls, cb_nonzero, cb_last, cb_chainlen;
-static void cb_note(psX509Cert_t *c, int32 alert) { cb_calls++; cb_last = alert; if (alert) cb_nonzero++; cb_chainlen = 0; for (; c; c = c->next) cb_chainlen++; }
-static int32 cb_strict(ssl_t *ssl, psX509Cert_t *c, int32 alert) { (void) ssl; cb_note(c, alert); return alert; }
-static int32 cb_permissive(ssl_t *ssl, psX509Cert_t *c, int32 alert) { (void) ssl; cb_note(c, alert); return 0; }
-static int32 cb_anon(ssl_t *ssl, psX509Cert_t *c, int32 alert) { (void) ssl; cb_note(c, alert); return SSL_ALLOW_ANON_CONNECTION; }
 
 /* OpenSSL draws its randomness from the case PRNG */
 static vf_rng o_rng;
@@ -153,8 +144,8 @@ static void run_case(void *a_)
         MX_LEAVE(); free(caPem);
         if (rc < 0) { vf_incon("openssl-prover: verifier key set failed to load rc=%d (%s)", rc, cur_desc); MX_ENTER(); matrixSslDeleteKeys(vk); MX_LEAVE(); goto out; }
         mx_cfg cfg = { .ver = s->ver, .suite = s->suite, .clientAuth = s->verifierIsServer, .expectedName = m.expected };
-        sslCertCb_t vcb = c->cb == CB_NONE ? NULL : c->cb == CB_STRICT ? cb_strict : c->cb == CB_ANON ? cb_anon : cb_permissive;
-        cb_calls = cb_nonzero = cb_last = cb_chainlen = 0;
+        sslCertCb_t vcb = cb_fn(c->cb);
+        cb_reset();
         V.ver = s->ver; V.wantTake = 1;
         if (s->verifierIsServer) { mx_opts(&o, &cfg, MX_SERVER); V.role = MX_SERVER; V.id = 1; V.name = "S"; mx_actor = 1; MX_ENTER(); rc = matrixSslNewServerSession(&V.ssl, vk, vcb, &o); MX_LEAVE(); }
         else { mx_opts(&o, &cfg, MX_CLIENT); V.role = MX_CLIENT; V.id = 0; V.name = "C"; psCipher16_t cs[1] = { s->suite }; matrixSslNewSessionId(&sid, NULL);
@@ -172,7 +163,11 @@ static void run_case(void *a_)
         vf_statf(1, "o_outcome_%s_%s", lname[c->label], vdone ? "complete" : "refused");
         if (!vdone) vf_statf(1, "o_alert_%s_%d", lname[c->label], alert);
         if (cb_calls) vf_stat(cb_chainlen == m.nchain ? "o_callback_saw_whole_chain" : "o_callback_saw_other_chain_length", 1);
-        if (verdict == V_GOOD) {
+        if (CB_REFUSES(c->cb)) vf_statf(1, "o_cbresult_%s_%s_%s", mx_vername[s->ver], cbname[c->cb] + 9, vdone ? "COMPLETE" : alert == SSL_ALERT_INTERNAL_ERROR ? "internal_error" : alert == SSL_ALERT_ACCESS_DENIED ? "that-alert" : cb_calls ? "other-alert" : "not-asked");
+        if (CB_REFUSES(c->cb) && verdict != V_POP) {
+            if (vdone) report(c, "completed-although-callback-refused", "verifier completed although its certificate callback (%s) refused: called %d times, last alert shown %d; sslCertCb_t: < 0 is a fatal internal error, > 0 is the alert to send", cbname[c->cb], cb_calls, cb_last);
+            else vf_stat("o_refused_as_required", 1);
+        } else if (verdict == V_GOOD) {
             if (!both) report(c, "good-credentials-refused", "handshake with a correct chain and key did not complete (verifier complete=%d alert %d, callback calls %d last alert %d; OpenSSL complete=%d error %d)", vdone, alert, cb_calls, cb_last, O.done, O.err);
             else if (!data) report(c, "good-credentials-refused", "no data after completion");
             else vf_stat("o_positive_controls_ok", 1);
@@ -201,8 +196,9 @@ int main(int argc, char **argv)
     /* key pool before fork()ing so that all children share it */
     for (int t = 0; t < 3; t++) for (int i = 0; i < 6; i++) if (!cg_key_get(t == 0 ? CG_K_RSA2048 : t == 1 ? CG_K_P256 : CG_K_ED25519, i)) { fprintf(stderr, "HARNESS: keygen failed\n"); return 2; }
     long idx = 0;
-    for (int si = 0; si < NSCN; si++) for (int l = 0; l < L_NALL; l++) for (int cb = 0; cb < CB_N; cb++) for (int via = 0; via < 2; via++) {
-        if (cb == CB_ANON && !scns[si].verifierIsServer) continue;                          /* SSL_ALLOW_ANON_CONNECTION is a server-side answer */
+    for (int si = 0; si < NSCN; si++) for (int l = 0; l < L_NALL; l++) for (int cb = 0; cb < CB_NALL; cb++) for (int via = 0; via < 2; via++) {
+        /* callback results outside the ordinary modes (refusing values; SSL_ALLOW_ANON_CONNECTION from a client): a few labels in the quick tier, all in thorough */
+        if ((CB_REFUSES(cb) || (cb == CB_ANON && !scns[si].verifierIsServer)) && (via || (!vf_thorough && l != L_GOOD && l != L_UNTRUSTED && l != L_EXPIRED_LEAF && l != L_UNTRUSTED_SS_NOKU_1990))) continue;
         if (scns[si].verifierIsServer && (l == L_WRONG_NAME || cb == CB_NONE)) continue;   /* a server asks for a client certificate by registering a callback */
         if (via && !label_allows_via(l)) continue;
         if (!vf_mine(idx++)) continue;
